@@ -1,6 +1,6 @@
 ---- MODULE MC_GrammarF ----
 EXTENDS GrammarF, Json
-Sized(p) == LET pl == Encode(Df, p.words, IF Df = 0 THEN 0 ELSE (16 - ((10 * Len(p.words)) % 16)) % 16)
+Sized(p) == LET pl == Encode(Df, p.words, (IF Df = 0 THEN 0 ELSE (16 - ((10 * Len(p.words)) % 16)) % 16) + p.xpad)
                 sz == 64 + Len(pl)
             IN [i \in 1..64 |-> IF i \in {9, 11} THEN sz % 256 ELSE IF i \in {10, 12} THEN sz \div 256 ELSE p.rdh[i]] \o pl
 Dump == (AllDone /\ fault.kind # "none") => PrintT("FSTREAM " \o ToJson([fault |-> fault, pk |-> [k \in 1..Len(stream) |-> Sized(stream[k])]]))
